@@ -64,6 +64,7 @@ def lean_build() -> LeanStatus:
     st = LeanStatus()
     lock = _lock()
     try:
+        subprocess.run([os.path.join(ROOT, "tools", "gen_root.sh")], check=False)  # every module is built
         p = subprocess.run(
             ["lake", "build"], cwd=LEAN, capture_output=True, text=True, timeout=3000
         )
